@@ -100,6 +100,8 @@ public:
 
         std::size_t position(Handle h) {
             COCLS_VERIF_POINT(pub_position);
+            //registrations can be reallocated by other subscriber in other thread
+            std::lock_guard _(_mx);
             return _regs[h]._pos;
         }
 
